@@ -319,6 +319,8 @@ ANTAGONISTS = [
 ]
 
 
+SOLVES = {"pinv", "inv", "lstsq", "solve"}
+FACTORISATIONS = {"svd_U", "svd_Vt", "svd_S", "svds_U", "svds_Vt", "svds_S", "rsvd_U", "rsvd_Vt", "rsvd_S", "eigh_w", "eigh_v", "eigsh_w", "eigsh_v", "qr_Q", "qr_R", "cholesky"}
 REWRITE_ONLY_OPS = {"call:numpy.einsum", "count", "int", "float", "nonzero1", "where3", "arange", "slice1", "diagof", "call:numpy.count_nonzero", "call:numpy.tensordot", "call:numpy.vdot", "call:numpy.inner"}
 
 
@@ -350,6 +352,11 @@ def foreign_vocabulary(code_t, ref_t):
     # formula (explicit index arithmetic, einsum contractions, counting a mask, casts of a
     # count) make the comparison undecided; any other foreign operation (a different solver,
     # another estimator call, squeeze/delete/stack ...) is reported as a violation.
+    # a (pseudo-)inverse / least-squares solve of the reference formula cannot be written with index arithmetic, masks
+    # and elementwise operations alone: a code value without any factorisation or solve is another computation
+    # (the reciprocal of a diagonal replaces the inverse only for a diagonal matrix)
+    if foreign and foreign <= REWRITE_ONLY_OPS and (vr & SOLVES) and not (vc & (SOLVES | FACTORISATIONS)):
+        return set()
     if foreign and foreign <= REWRITE_ONLY_OPS:
         # ... unless such an operation decides an extent (a slice bound): truncating by a data-dependent
         # count is a different computation, not another spelling of the reference formula
